@@ -5,11 +5,14 @@ import (
 	"math/big"
 
 	"github.com/ethereum/go-ethereum/common"
+	"github.com/jackc/pgconn"
 
 	"github.com/shutter-network/shutter/shlib/puredkg"
+	"github.com/shutter-network/shutter/shlib/shcrypto"
 
 	"github.com/shutter-network/rolling-shutter/rolling-shutter/keyper/database"
 	"github.com/shutter-network/rolling-shutter/rolling-shutter/keyper/shutterevents"
+	"github.com/shutter-network/rolling-shutter/rolling-shutter/shmsg"
 )
 
 // C08 (cache write-back): the in-memory DKG object is a cache of the puredkg table. Whenever an
@@ -78,4 +81,175 @@ func H_C08_cache_written_back_when_changed() {
 		vfReach("unchanged")
 	}
 	vfAssert(!st.dkg[eon].dirty, "nothing-dirty-after-save")
+}
+
+// ---- phase transitions ----
+
+var vfPh struct {
+	scheduled  []*shmsg.Message // queued shuttermint messages, in order
+	commitMsgs []*shmsg.Message // polynomial commitment messages built
+	polyEvals int
+	deleted   []int64 // DeletePureDKG calls
+	results   []int64 // InsertDKGResult calls
+	computeOK bool
+	starts    [4]int // calls of StartPhase1Dealing / 2 / 3 / Finalize
+}
+
+//verif:stub (*github.com/shutter-network/shutter/shlib/puredkg.PureDKG).StartPhase1Dealing
+func vfStubStart1(p *puredkg.PureDKG) (puredkg.PolyCommitmentMsg, []puredkg.PolyEvalMsg, error) {
+	vfPh.starts[0]++
+	p.Phase = puredkg.Dealing
+	var evals []puredkg.PolyEvalMsg
+	for i := uint64(0); i < p.NumKeypers; i++ {
+		evals = append(evals, puredkg.PolyEvalMsg{Eon: p.Eon, Sender: p.Keyper, Receiver: i, Eval: new(big.Int).SetUint64(vfU64("own-eval"))})
+	}
+	return puredkg.PolyCommitmentMsg{Eon: p.Eon, Sender: p.Keyper, Gammas: &shcrypto.Gammas{}}, evals, nil
+}
+
+//verif:stub (*github.com/shutter-network/shutter/shlib/puredkg.PureDKG).StartPhase2Accusing
+func vfStubStart2(p *puredkg.PureDKG) []puredkg.AccusationMsg {
+	vfPh.starts[1]++
+	p.Phase = puredkg.Accusing
+	var out []puredkg.AccusationMsg
+	if vfBool("accuses-someone") {
+		out = append(out, puredkg.AccusationMsg{Eon: p.Eon, Accuser: p.Keyper, Accused: 0})
+	}
+	return out
+}
+
+//verif:stub (*github.com/shutter-network/shutter/shlib/puredkg.PureDKG).StartPhase3Apologizing
+func vfStubStart3(p *puredkg.PureDKG) []puredkg.ApologyMsg {
+	vfPh.starts[2]++
+	p.Phase = puredkg.Apologizing
+	var out []puredkg.ApologyMsg
+	if vfBool("apologises") {
+		out = append(out, puredkg.ApologyMsg{Eon: p.Eon, Accuser: 0, Accused: p.Keyper, Eval: new(big.Int).SetUint64(vfU64("apology-eval"))})
+	}
+	return out
+}
+
+//verif:stub (*github.com/shutter-network/shutter/shlib/puredkg.PureDKG).Finalize
+func vfStubFinalize(p *puredkg.PureDKG) {
+	vfPh.starts[3]++
+	p.Phase = puredkg.Finalized
+}
+
+//verif:stub (*github.com/shutter-network/shutter/shlib/puredkg.PureDKG).ComputeResult
+func vfStubComputeResult(p *puredkg.PureDKG) (puredkg.Result, error) {
+	if !vfPh.computeOK {
+		return puredkg.Result{Eon: p.Eon}, vfErr("dkg failed")
+	}
+	return puredkg.Result{Eon: p.Eon, NumKeypers: p.NumKeypers, Threshold: p.Threshold, Keyper: p.Keyper, PublicKey: vfTagged[shcrypto.EonPublicKey](vfU64("eonpk"))}, nil
+}
+
+//verif:stub github.com/shutter-network/rolling-shutter/rolling-shutter/shdb.EncodePureDKGResult
+func vfStubEncodeResult(r *puredkg.Result) ([]byte, error) { return []byte("result"), nil }
+
+//verif:stub (*github.com/shutter-network/shutter/shlib/shcrypto.EonPublicKey).GobEncode
+func vfStubPKGob(k *shcrypto.EonPublicKey) ([]byte, error) { return []byte("eonpk"), nil }
+
+//verif:stub github.com/shutter-network/rolling-shutter/rolling-shutter/shmsg.NewPolyCommitment
+func vfStubNewPolyCommitment(eon uint64, gammas *shcrypto.Gammas) *shmsg.Message {
+	m := &shmsg.Message{}
+	vfPh.commitMsgs = append(vfPh.commitMsgs, m)
+	return m
+}
+
+//verif:stub (*github.com/shutter-network/rolling-shutter/rolling-shutter/keyper/database.Queries).ScheduleShutterMessage
+func vfStubSchedule(q *database.Queries, ctx context.Context, description string, msg *shmsg.Message) error {
+	vfPh.scheduled = append(vfPh.scheduled, msg)
+	return nil
+}
+
+//verif:stub (*github.com/shutter-network/rolling-shutter/rolling-shutter/keyper/database.Queries).InsertPolyEval sql=insertPolyEval
+func vfStubInsertPolyEval(q *database.Queries, ctx context.Context, arg database.InsertPolyEvalParams) error {
+	vfPh.polyEvals++
+	return nil
+}
+
+//verif:stub (*github.com/shutter-network/rolling-shutter/rolling-shutter/keyper/database.Queries).DeletePureDKG sql=deletePureDKG
+func vfStubDeletePure(q *database.Queries, ctx context.Context, eon int64) error {
+	vfPh.deleted = append(vfPh.deleted, eon)
+	return nil
+}
+
+//verif:stub (*github.com/shutter-network/rolling-shutter/rolling-shutter/keyper/database.Queries).DeletePolyEvalByEon sql=deletePolyEvalByEon
+func vfStubDeletePolyEvals(q *database.Queries, ctx context.Context, eon int64) (pgconn.CommandTag, error) {
+	return nil, nil
+}
+
+//verif:stub (github.com/jackc/pgconn.CommandTag).RowsAffected
+func vfStubRowsAffected8(t pgconn.CommandTag) int64 { return 0 }
+
+//verif:stub (*github.com/shutter-network/rolling-shutter/rolling-shutter/keyper/database.Queries).GetEon sql=getEon
+func vfStubGetEon8(q *database.Queries, ctx context.Context, eon int64) (database.Eon, error) {
+	return database.Eon{Eon: eon}, nil
+}
+
+//verif:stub (*github.com/shutter-network/rolling-shutter/rolling-shutter/keyper/database.Queries).InsertEonPublicKey sql=insertEonPublicKey
+func vfStubInsertEonPK(q *database.Queries, ctx context.Context, arg database.InsertEonPublicKeyParams) error {
+	return nil
+}
+
+//verif:stub (*github.com/shutter-network/rolling-shutter/rolling-shutter/keyper/database.Queries).InsertDKGResult sql=insertDKGResult
+func vfStubInsertResult(q *database.Queries, ctx context.Context, arg database.InsertDKGResultParams) error {
+	vfPh.results = append(vfPh.results, arg.Eon)
+	vfAssert(arg.Success == vfPh.computeOK, "stored-result-reports-the-computed-outcome")
+	return nil
+}
+
+// One block's shiftPhases on a freshly loaded DKG object, then Save: every phase the object moved
+// through is persisted in the same block as the messages it queued. In particular the dealing
+// phase queues exactly one polynomial commitment and is written back (a keyper that lost this
+// write would deal a second, different polynomial after a restart).
+func H_C08_phase_shift_written_back() {
+	ks := vfKeypers(vfParam("keypers", 2))
+	eon := vfU64("eon")
+	vfAssume(eon < 1<<62)
+	phase := puredkg.Phase(vfLen("phase", 3)) // Off .. Apologizing
+	own := ks[0]
+	st := vfState(own, eon, ks, phase)
+	dkg := st.dkg[eon]
+	dkg.startHeight = vfI64("start-height")
+	height := vfI64("height")
+	vfAssume(dkg.startHeight >= 0 && dkg.startHeight < 1<<40 && height >= 0 && height < 1<<40)
+	vfPh.scheduled, vfPh.commitMsgs, vfPh.polyEvals, vfPh.deleted, vfPh.results = nil, nil, 0, nil, nil
+	vfPh.starts = [4]int{}
+	vfPh.computeOK = vfBool("dkg-succeeds")
+	vfSaved = nil
+	err := st.shiftPhases(context.Background(), nil, height)
+	vfAssert(err == nil, "phase-shift-succeeds")
+	serr := st.Save(context.Background(), nil)
+	vfAssert(serr == nil, "save-succeeds")
+	target := st.phaseLength.GetPhaseAtHeight(height, dkg.startHeight)
+	moved := dkg.pure.Phase != phase
+	vfAssert(moved == (target > phase), "object-is-moved-to-the-phase-of-the-height")
+	for i := 0; i < 4; i++ {
+		vfAssert(vfPh.starts[i] <= 1, "each-phase-is-started-at-most-once")
+	}
+	if !moved {
+		vfAssert(len(vfSaved) == 0 && len(vfPh.scheduled) == 0, "nothing-written-or-queued-without-a-transition")
+		vfReach("no-transition")
+		return
+	}
+	if dkg.pure.Phase == puredkg.Finalized {
+		_, still := st.dkg[eon]
+		vfAssert(!still && len(vfPh.deleted) == 1 && vfPh.deleted[0] == int64(eon), "finalised-object-is-removed-from-memory-and-table")
+		vfAssert(len(vfPh.results) == 1 && vfPh.results[0] == int64(eon), "exactly-one-result-row")
+		vfAssert(len(vfSaved) == 0, "removed-object-is-not-written-again")
+		vfReach("finalised")
+	} else {
+		vfAssert(len(vfSaved) == 1 && vfSaved[0] == int64(eon), "moved-object-is-written-back-in-the-same-block")
+		vfReach("moved-and-written-back")
+	}
+	if vfPh.starts[0] == 1 {
+		n := 0
+		for _, m := range vfPh.scheduled {
+			if len(vfPh.commitMsgs) == 1 && m == vfPh.commitMsgs[0] {
+				n++
+			}
+		}
+		vfAssert(n == 1, "exactly-one-polynomial-commitment-queued-per-dealing")
+		vfAssert(vfPh.polyEvals == len(ks), "one-evaluation-row-per-keyper")
+	}
 }
